@@ -69,12 +69,12 @@ def run(ctx):
     RL.check_singleton_lock(ctx, 'R7.7')
     # R7.6
     before = len(ctx.obs)
-    for r in ('R15.1', 'R15.2', 'R15.3'):
+    for r in ('R15.1', 'R15.2', 'R15.3', 'R15.4', 'R15.5'):
         ctx.rule(r, '', floor=0)
     c15.run(ctx)
     for o in ctx.obs[before:]:
         o.rule = 'R7.6'
-    for r in ('R15.1', 'R15.2', 'R15.3', 'R15.4'):
+    for r in ('R15.1', 'R15.2', 'R15.3', 'R15.4', 'R15.5'):
         ctx.rules.pop(r, None)
         ctx.floors.pop(r, None)
 
@@ -420,6 +420,8 @@ def check_bounds(ctx, reach):
             n += 1
             amap = alias_map(f.node)
             text = canon_text(src(x), amap)
+            # locals of an expanded helper carry the helper's name as a suffix (normalize.py): the invariant is about the value
+            text = re.sub(r'\b(\w+?)___\w+\b', r'\1', text)
             loc = f'{f.mod.relpath}:{x.lineno}'
             key = f'{f.short}:{text}'
             ok, why = discharge_bound(ctx, T, N, f, g, x, kind, tries)
